@@ -104,6 +104,13 @@ func newC19(job *Job, res *Result, alphabet []gencore.Invocation) *c19env {
 				GenClient: t.Choose(2, "c") == 1, APIHandler: t.Choose(4, "a") != 0, DoNotEdit: t.Choose(2, "d") == 1,
 				Package: []string{"test", "api"}[t.Choose(2, "p")], SpecHandler: "openapi.yaml", BasePath: []string{"", "/v1"}[t.Choose(2, "b")]})
 		}
+		// a twin that differs only in the config file: custom imports with an alias that shadows a std package
+		if len(alphabet) > 9 {
+			twin := alphabet[9]
+			twin.HasConfig, twin.Config = true, "imports:\n  - value: github.com/goccy/go-json\n    alias: json\n"
+			alphabet[9].HasConfig, alphabet[9].Config = false, ""
+			alphabet = append(alphabet, twin)
+		}
 		// a twin of the first extra invocation that differs only in a flag of the same length
 		if len(alphabet) > 8 {
 			twin := alphabet[8]
@@ -235,7 +242,8 @@ func (e *c19env) execC19(p c19plan) (o c19outcome) {
 	writeUser("README.md", "# user readme\n")
 	writeUser("client_test.go", userContent("client_test.go", 0))
 	writeUser("sub/keep.go", userContent("sub/keep.go", 0))
-	writeUser("handler_impl.go", userContent("handler_impl.go", 0))
+	// a hand-written file of the generated package that imports third-party packages under std names
+	writeUser("handler_impl.go", siblingSource("test"))
 	lastInv := -1
 	cleanInv := -1 // D is known to reflect this invocation exactly
 	tornPending := false
